@@ -125,6 +125,17 @@ def abstractify(rng, parents, p=0.5):
     return kinds, virt
 
 
+def random_term(rng, n, depth=1):
+    r = rng.random()
+    if r < 0.45 or n < 3:
+        return cls(rng.randint(1, n))
+    k = rng.choice([2, 2, 3])
+    members = rng.sample(range(2, n + 1), min(k, n - 1))
+    if r < 0.8:
+        return {"k": "union", "args": [cls(c) for c in members]}
+    return {"k": "inter", "args": [cls(c) for c in members]}
+
+
 def concrete(world):
     kinds = world.get("kinds")
     n = len(world["parents"])
@@ -165,7 +176,7 @@ def exhaustive_static(n_user, npos, max_methods, prios=(0, 1), bodies="next"):
                 yield w, list(all_calls(w, [npos]))
 
 
-def random_static_world(rng, n_user=None, max_methods=5, abstract=False, kinds_bodies=("next", "leaf", "fnext")):
+def random_static_world(rng, n_user=None, max_methods=5, abstract=False, kinds_bodies=("next", "leaf", "fnext"), spare=False, unions=False):
     """One random world with mixed arities, optional positionals, typed
     keyword-only parameters, priorities and re-registered signatures."""
     n_user = n_user or rng.randint(2, 6)
@@ -196,6 +207,8 @@ def random_static_world(rng, n_user=None, max_methods=5, abstract=False, kinds_b
         else:
             npos = rng.randint(1, maxpos) if rng.random() < 0.35 else maxpos
             types = [rng.randint(1, n) for _ in range(npos)]
+            if unions:
+                types = [random_term(rng, n) if rng.random() < 0.5 else t for t in types]
             reqpos = npos
             if npos >= 1 and rng.random() < 0.2:
                 reqpos = npos - 1
